@@ -2,10 +2,12 @@
 from . import core_targets as K
 
 LEVEL = 'proof'
-TAGS = ('C22', 'tree', 'wf')
+TAGS = ('C22', 'tree', 'wf', 'idle')
 TRUSTED = ['abstract handler contract (DESIGN 5.2)', 'tree lemmas (discharged obligations)',
            'Event.__init__ contract (proved under C25)']
-ASSUMPTIONS = ['state functions obey the handler contract']
+ASSUMPTIONS = ['Inv_idle (temp.fun == state.fun between public calls) is what every operation assumes; its '
+               'preservation by start_at, dispatch, is_in and child_state is checked here too (tag idle)',
+               'state functions obey the handler contract']
 EXPLANATION = ('is_in/child_state of the real source over an uninterpreted tree: the answer is compared with the '
                'spec function encloses(X, current); the frame (only temp.fun, restored) and the absence of any monitor '
                'step or offer show that the chart and its later behaviour are untouched.')
@@ -14,4 +16,4 @@ MIN_OBLIGATIONS = 20
 
 def build(src, tier):
     w = K.world_for(src, tier)
-    return [(w, [K.t_tree_lemmas(), K.t_is_in(), K.t_child_state()])]
+    return [(w, [K.t_tree_lemmas(), K.t_is_in(), K.t_child_state(), K.t_dispatch(), K.t_trans_(), K.t_start_at()])]
